@@ -138,7 +138,7 @@ theorem clock_handler (σ : St) (h : Clock σ) (hr : σ.running = true) :
     · right; left; exact ⟨t, mem_fired_block.mpr (Or.inr ht)⟩
     · right; right; exact ⟨t, mem_destroyed_block.mpr ht⟩
   have hord := ordered_fired_block (σ.now + σ.remaining) _ σ.log h.ordered hold hdueNow
-  unfold handler
+  unfold handler handlerBody
   simp only [h.notCrit, Bool.false_eq_true, if_false, hp]
   split
   · -- nothing left: the clock stops
